@@ -279,6 +279,9 @@ def main():
         # signatures of the converter functions (needed for keyword-argument resolution)
         for p in ('pygaps/units/converter_unit.py', 'pygaps/units/converter_mode.py'):
             U.translate_module(os.path.join(srcdir, p), None)
+        # every table and function of the converter modules may be used by the methods: make them available applied to N
+        out.append("\n".join(f"Local Notation {g} := ({g} N)." for g in list(U.GLOBALS) + list(U.FUNCS)
+                             if g not in ('c_pressure', 'c_loading', 'c_material', 'c_temperature')) + "\n")
         base = ast.parse(open(os.path.join(srcdir, 'pygaps/core/baseisotherm.py'), encoding='utf8').read())
         point = ast.parse(open(os.path.join(srcdir, 'pygaps/core/pointisotherm.py'), encoding='utf8').read())
         out.append(translate_pure(strip_doc(U.rename_params(find_method(base, 'BaseIsotherm', 'temperature')))))
